@@ -107,7 +107,7 @@ def step (st : State) : Op → State
   | .select p _ =>
     let swept := openS st.sessions
     match p with
-    | .roundRobin => { st with sessions := swept, seq := st.seq + 1 }
+    | .roundRobin => { st with sessions := swept, seq := if swept.isEmpty then st.seq else st.seq + 1 }   -- the sequence advances only when a session is chosen
     | .consistentHash =>
       { st with ring := match st.ring with | none => some (swept.map (·.id)) | some r => some r,
                 sessions := match st.ring with | none => swept | some _ => st.sessions }
